@@ -177,7 +177,69 @@ func Mutate(rng *rand.Rand, s string, tokens []string) string {
 	}
 }
 
-// Generate draws one arbitrary input.
+var hugeTotals = []int{1023, 1024, 1025, 1500, 5000, 70000}
+
+// Huge draws a rejected input far beyond the limits: over-long ASCII labels,
+// valid-looking long names with one bad rune at the start / in the middle /
+// at the end, long IDN and long invalid UTF-8.  Non-ASCII ones stay <= 5000
+// bytes (punycode is quadratic).  Few distinct bytes are used so that the
+// abstraction stays compact.
+func Huge(rng *rand.Rand) string {
+	total := hugeTotals[rng.IntN(len(hugeTotals))]
+	rep := func(unit string, n int) string {
+		s := strings.Repeat(unit, n/len(unit)+1)
+		return s[:n/len(unit)*len(unit)]
+	}
+	name := func(n int) string { // 63-byte labels, exactly n bytes
+		var sb strings.Builder
+		c := "abcdefghijKLMNOP0123456789"[rng.IntN(26)]
+		for sb.Len() < n {
+			k := min(63, n-sb.Len())
+			if sb.Len() > 0 {
+				sb.WriteByte('.')
+				k = min(63, n-sb.Len())
+			}
+			sb.WriteString(strings.Repeat(string(c), k))
+		}
+		s := sb.String()
+		if strings.HasSuffix(s, ".") {
+			s = s[:len(s)-1] + "a"
+		}
+		return s
+	}
+	bad := []string{"!", "_", "-", " ", "\x00", "é", "\xff", "。"}[rng.IntN(8)]
+	switch rng.IntN(9) {
+	case 0:
+		return rep(string("aZ0-_!x"[rng.IntN(7)]), total)
+	case 1:
+		return rep("a", total-4) + ".com"
+	case 2:
+		return name(total)
+	case 3:
+		return bad + name(total-len(bad))
+	case 4:
+		s := name(total - len(bad))
+		return s[:len(s)/2] + bad + s[len(s)/2:]
+	case 5:
+		return name(total-len(bad)) + bad
+	case 6:
+		return rep([]string{"é", "例", "ß", "я"}[rng.IntN(4)], min(total, 5000))
+	case 7:
+		return rep([]string{"\xff", "\x80", "\xc3", "a\xff"}[rng.IntN(4)], min(total, 5000))
+	default:
+		return rep("bücher.", min(total, 5000)) + "de"
+	}
+}
+
+// GenerateAny draws one arbitrary input, now and then a huge one.
+func GenerateAny(rng *rand.Rand) string {
+	if rng.IntN(300) == 0 {
+		return Huge(rng)
+	}
+	return Generate(rng)
+}
+
+// Generate draws one arbitrary input of ordinary size.
 func Generate(rng *rand.Rand) string {
 	var s string
 	switch r := rng.IntN(20); {
@@ -240,10 +302,10 @@ func record(args []string) error {
 	}
 	rng := vh.Rand(31)
 	dd := vh.NewDedup()
-	skipped, failed, accepted, nonASCII, hcalls := 0, 0, 0, 0, 0
+	skipped, failed, accepted, nonASCII, hcalls, huge, tooLong := 0, 0, 0, 0, 0, 0, 0
 	var hist []Entry
 	for i := 0; i < n; i++ {
-		s := Generate(rng)
+		s := GenerateAny(rng)
 		if !dd.Add([]byte(s)) {
 			continue
 		}
@@ -273,9 +335,23 @@ func record(args []string) error {
 		if obs[0].Panic != "" || obs[1].Panic != "" || obs[2].Panic != "" {
 			continue // already a mismatch; a panic has no line in the grammar
 		}
+		if len(s) > 200 || i%16 == 0 {
+			if fn, what := CheckLabels(s); fn != "" {
+				res.Mismatch(fmt.Sprintf("%s(%s)", fn, shortQ(s)), what+" [T recorded]", map[string]any{"input": s, "input_go": strconv.Quote(s)})
+			}
+		}
+		if len(s) > 1000 {
+			huge++
+		}
 		if !e && !isASCII(t) {
 			// Not expressible: the grammar is about ASCII output of ToASCII.
 			skipped++
+			continue
+		}
+		if !e && len(Abstract(t)) > 600 {
+			// Expressible but too long a token string for the trace spec; it
+			// has been judged against the reference above.
+			tooLong++
 			continue
 		}
 		ev := Event{K: "name", E: e, Host: obs[0], Srv: obs[1], Dom: obs[2], T: [][2]any{}}
@@ -290,6 +366,6 @@ func record(args []string) error {
 	hcalls = History(hist, vh.Rand(32), func(fn, key, what string, detail any) {
 		res.Mismatch(fmt.Sprintf("%s(%s)", fn, shortQ(key)), what+" [T history]", detail)
 	})
-	return res.Close(map[string]any{"events": tr.N, "inputs": dd.N(), "evaluations": dd.N()*6 + hcalls, "history_calls": hcalls, "inexpressible_skipped": skipped,
+	return res.Close(map[string]any{"events": tr.N, "inputs": dd.N(), "evaluations": dd.N()*6 + hcalls, "history_calls": hcalls, "inexpressible_skipped": skipped, "too_long_for_trace_skipped": tooLong, "huge_inputs": huge,
 		"toascii_failed": failed, "accepted_by_grammar": accepted, "non_ascii_inputs": nonASCII})
 }
